@@ -14,7 +14,8 @@ import json, re, sys, os, subprocess, hashlib
 class Unsupported(Exception):
     pass
 
-CLANG_FLAGS = ['-std=gnu++11', '-DNDEBUG', '-I/repo/modules', '-I/repo/3rd-party', '-fsyntax-only', '-w']
+REPO = os.environ.get('VERIF_REPO', '/repo')
+CLANG_FLAGS = ['-std=gnu++11', '-DNDEBUG', '-I' + REPO + '/modules', '-I' + REPO + '/3rd-party', '-fsyntax-only', '-w']
 
 def clang_ast(tu, flt, extra_flags=(), cache_dir=None):
     """Run clang on tu (absolute path) and return the list of JSON documents."""
